@@ -52,6 +52,13 @@ PROFILES = {
         "set_link": 3, "set_repository": 3,
     }, fault_share=0.25, detached_share=0.25, save_only_backends=("rdf",)),
 }
+# a second profile in which terminologies that load and the optional terminology rules dominate
+# (a third of the runs)
+PROFILES["c19-terms"] = Profile("c19-terms", {
+    "term_scenario": 60, "validate_optional": 6, "validate": 4, "create_property": 4,
+    "set_attr": 3, "clone": 2, "new_sec": 2,
+}, fault_share=0.05, length=(10, 18), save_only_backends=("rdf",))
+PROFILES["c19-validation-2"] = PROFILES["c19-validation"]
 MONITORS = [mon_valid]
 XPROC_EVERY = 2
 
